@@ -18,7 +18,7 @@ META = {
     "required": ["monitor:type-resolve", "monitor:hugr-resolve", "monitor:wire-invariance", "monitor:model-invariance",
                  "monitor:idempotence", "monitor:model-compared", "monitor:hugr-model-compared", "feature:partial-registry", "feature:empty-registry",
                  "feature:missing-def", "feature:opaque-inside-opaque-args", "feature:resolved-op",
-                 "feature:unresolved-op", "feature:polyfunc", "feature:perturbed-runtime-reqs", "feature:computed-signature-op"],
+                 "feature:unresolved-op", "feature:polyfunc", "feature:perturbed-runtime-reqs", "feature:computed-signature-op", "feature:lookalike-names"],
     "reach": ["hugr.tys:Opaque.resolve", "hugr.ops:Custom.resolve", "hugr.hugr.base:Hugr.resolve_extensions",
               "hugr.tys:Sum.resolve", "hugr.tys:FunctionType.resolve", "hugr.ext:ExtensionRegistry.get_extension"],
     "assumptions": [
@@ -308,6 +308,20 @@ def check_hugr_case(ctx, case, stratum="hugr"):
         h.add_node(ops.Custom("BinOp", tys.FunctionType([box], [f64]), "", "verif.test",
                               [tys.TypeTypeArg(box), tys.SequenceArg([tys.TypeTypeArg(arr), tys.StringArg("s")])]),
                    h.root)
+    if case.get("plant_lookalike"):
+        # opaque operations / types whose NAME only resembles a defined one (qualified with the extension's name,
+        # other case, padded): the registry holds no definition "of that name", they stay as they are
+        from hugr import tys
+
+        ctx.feat("feature:lookalike-names")
+        C = tys.TypeBound.Copyable
+        for e_, n_ in (("logic", "logic.Not"), ("logic", "not"), ("logic", "Not "), ("logic", " Not"),
+                       ("arithmetic.int", "arithmetic.int.iadd"), ("verif.test", "verif.test.BinOp")):
+            h.add_node(ops.Custom(n_, tys.FunctionType([tys.Bool], [tys.Bool]), "", e_, []), h.root)
+        look = tys.Opaque(id="arithmetic.int.types.int", bound=C, args=[tys.BoundedNatArg(5)],
+                          extension="arithmetic.int.types")
+        look2 = tys.Opaque(id="Float64", bound=C, args=[], extension="arithmetic.float.types")
+        h.add_node(ops.Custom("Not", tys.FunctionType([look], [look2]), "", "logic", [tys.TypeTypeArg(look)]), h.root)
     exts = all_exts()
     universe = {n: {"types": sorted(e.types), "ops": sorted(e.operations)} for n, e in exts.items()}
     reg = make_registry(spec, exts)
@@ -430,7 +444,7 @@ def run(ctx):
         universe = {e.name: {"types": sorted(e.types), "ops": sorted(e.operations)}
                     for e in [*hx.std_extensions(), hx.test_ext()]}
         case = {"prog": gen_program(r, kind="module", budget=25), "reg": gen_registry_spec(r, universe),
-                "reqs_seed": f"{ctx.seed}/{i}" if i % 2 else None, "plant_binary": i % 3 == 0}
+                "reqs_seed": f"{ctx.seed}/{i}" if i % 2 else None, "plant_binary": i % 3 == 0, "plant_lookalike": i % 3 == 1}
         nt = ctx.guard("hugr", case, check_hugr_case, ctx, case)
         ctx.case("hugr", case, bool(nt))
 
